@@ -101,7 +101,11 @@ Record scoping_ok (s : state) : Prop := {
   (* declarations are acyclic *)
   sc_acyclic : forall n q, q ∈ decl (nd s n) -> mu_lt s q n;
   (* a lhs-change node is declared by its main node only *)
-  sc_lhs : forall n q b0, q ∈ decl (nd s n) -> nkind (nd s q) = KBindLhs b0 -> n = S q
+  sc_lhs : forall n q b0, q ∈ decl (nd s n) -> nkind (nd s q) = KBindLhs b0 -> n = S q;
+  (* the right-hand side of a bind is not a lhs-change node *)
+  sc_rhs_nl : forall b q b0, b_rhs (bd s b) = Some q -> nkind (nd s q) <> KBindLhs b0;
+  (* the two nodes of a nested bind belong to the same generation *)
+  sc_pair : forall b b1, inGen s b b1 -> nkind (nd s b1) = KBindLhs b1 -> inGen s b (S b1)
 }.
 
 Record valid_ok (s : state) : Prop := {
